@@ -44,14 +44,13 @@ CONSTANT AsWas
 \* instantiate the module once per subset (INSTANCE Biff5 WITH Rep <- R), so that a reader in which any
 \* subset of the deviations has been repaired -- including two deviations that meet in one string -- is a
 \* behaviour of the specification, and a third reading is not.
-\*   "ShortString"          parse_string demands 4 bytes of every version (BIFF5: cch + 0 bytes is legal)
 \*   "Biff5Lbl"             the Lbl name is read with an option-flags byte in every version
 \*   "Biff5Format"          FORMAT is read as ifmt, cch(2), flags in every version (BIFF5: ifmt, cch(1), bytes)
 \*   "DbcsByteString"       a byte string under a double-byte page is widened byte by byte (Some(false))
 \*   "UnsupportedCodePage"  a CODEPAGE without decoder fails the workbook (repaired: ASCII as it is; of the
 \*                          high bytes only the alphabet's 437 byte is given a reading)
 CONSTANT Rep
-DevNames == {"ShortString", "Biff5Lbl", "Biff5Format", "DbcsByteString", "UnsupportedCodePage"}
+DevNames == {"Biff5Lbl", "Biff5Format", "DbcsByteString", "UnsupportedCodePage"}
 
 MinN(a, b) == IF a < b THEN a ELSE b
 MaxN(a, b) == IF a > b THEN a ELSE b
@@ -201,7 +200,10 @@ ShortString(d, enc, biff) ==
 
 \* parse_string: cch is two bytes; every version before BIFF8 has no option-flags byte
 LongString(d, enc, biff) ==
-  IF Len(d) < (IF biff # "Biff8" /\ "ShortString" \in Rep THEN 2 ELSE 4) THEN Str("Len(string)", <<>>, <<>>)
+  \* cch, the option flags in BIFF8, then cch characters, possibly none (as pinned: 4 bytes demanded of every
+  \* version -- a one-character BIFF5 string or an empty BIFF8 one failed the workbook; repaired in /repo, see
+  \* known_findings.json "fixed"; AsWas keeps the old test)
+  IF Len(d) < (IF AsWas THEN 4 ELSE IF biff = "Biff8" THEN 3 ELSE 2) THEN Str("Len(string)", <<>>, <<>>)
   ELSE LET cch == U16(d, 1)
            r   == IF biff = "Biff8" THEN DecodeTo(enc, Drop(d, 3), cch, HB(d[3]))
                   ELSE DecodeTo(enc, Drop(d, 2), cch, "none")
